@@ -3,6 +3,7 @@
 package main
 
 import (
+	"encoding/json"
 	"flag"
 	"fmt"
 	"os"
@@ -50,6 +51,10 @@ func main() {
 		}
 	case "check":
 		os.Exit(driver.CheckMain(os.Args[2:]))
+	case "props":
+		enc := json.NewEncoder(os.Stdout)
+		enc.SetIndent("", " ")
+		enc.Encode(driver.Properties)
 	case "selftest":
 		os.Exit(driver.SelfTestMain(os.Args[2:]))
 	default:
